@@ -22,7 +22,7 @@ impl Prop for C13Prop {
         }
     }
     fn rule(&self) -> &'static str {
-        "Byzantine meter with faults biased into the middle of list responses (bad CRC, truncated list, corrupt entry, inflated count, missing end marker); the consumer polls 0, 1, 2, 5 or 64 more times after the first Err / None. Non-trivial = at least one fault applied; distinct = scenario fingerprint"
+        "Byzantine meter with faults biased into the middle of list responses (bad CRC, truncated list, corrupt entry, inflated count, missing end marker); the consumer polls 0, 1, 2, 5 or 64 more times after the first Err / None; a second consumer advances with nth(1..3) (what skip and step_by do) and polls on likewise. Non-trivial = at least one fault applied; distinct = scenario fingerprint"
     }
     fn assumptions(&self) -> Vec<&'static str> {
         vec!["the run is cut at |x| + 2 polls before the end, so a parser that never ends is reported as a violation with a replay file, not as a hang"]
@@ -70,6 +70,23 @@ impl Prop for C13Prop {
                 }
             } else if !after.is_empty() {
                 st.bump("probe", "polled-after-none");
+            }
+            // the same clauses for a consumer that advances with nth(k) (`skip`, `step_by`)
+            if let Some(v) = &r.nth_panic {
+                return Some(Violation { class: "panic".into(), clause: format!("C13.nth.{}", v.clause), detail: format!("{}; {}", v.detail, ctx) });
+            }
+            if !r.nth_polls.is_empty() {
+                st.bump("probe", "nth-consumer");
+                let e = r.nth_polls.iter().position(|p| *p != Poll::Event).unwrap_or(r.nth_polls.len());
+                if e == r.nth_polls.len() {
+                    return Some(Violation::oracle("C13.more-than-len-plus-1-items", format!("a consumer advancing with nth({}) received {} items without an Err or None; {}", r.nth_step, e, ctx)));
+                }
+                if let Some(k) = r.nth_polls[e + 1..].iter().position(|p| *p != Poll::None) {
+                    return Some(Violation::oracle(
+                        "C13.item-after-end",
+                        format!("a consumer advancing with nth({}) received {:?} as its item {} and then {:?} as item {} instead of None; {}", r.nth_step, r.nth_polls[e], e + 1, r.nth_polls[e + 1 + k], e + 2 + k, ctx),
+                    ));
+                }
             }
             if let Some(k) = after.iter().position(|p| *p != Poll::None) {
                 let errs = r.polls.iter().filter(|p| **p == Poll::Err).count();
